@@ -211,6 +211,8 @@ def run(ctx):
             os.chdir(old)
     ctx.counted('REALPATH verdicts across trees and tree changes', n, n // 2, [{'path': 'pkg/data/x', 'pattern': '**/x'}])
     ctx.corr('REALPATH decision (_Match.match)', corr.corr_realpath(rng, [trees.DESIGNED[0], trees.DESIGNED[3], spec_link, spec_real], 150 if ctx.quick else 600))
+    nfe = globcommon.frontends_equiv(ctx, rng)
+    ctx.counted('dir_fd / iglob / pathlib / cloned matchers vs glob', nfe, nfe // 2, [{'pattern': 'vis/*'}])
     return ctx.finish(RULE)
 
 
